@@ -1,4 +1,54 @@
-(* PLACEHOLDER HEADER - replaced at the end *)
+(* Sessions that MIX edits with feature switching (Tracks.enable_features / disable_features) of the
+   non-id features: what is proved, what is refuted, what is left open.
+
+   switch_ok o : an OEnable call recomputes (rc = true) and names neither KTrack nor KLin; an ODisable call
+   names neither KTrack nor KLin; an edit call is unconstrained.  (rc = true: registering a disabled feature
+   without recomputation makes stale values "active"; the id keys: Proofs/ToggleRefuted.v.)
+   Side facts threaded through a session: side_ok st = cfg_keys st (Proofs/ToggleProofs.v, the standing
+   configuration hypothesis of the C10 statements: rp_all consists of regionprops keys, without duplicates,
+   rp_act among rp_all, iou_act -> iou_avail) /\ reg_ok st /\ rp_disjoint st /\ rp_decl st.
+   cfg_keys is the one EXTRA side condition: without it rp_all may contain KTime, a switch may then
+   unregister the time, and cfg_ok is lost.  It implies rp_disjoint and rp_decl.
+
+   PROVED (sections 1, 2, 6)
+   (1) one switch call: enable_step_WF, disable_step_WF (WF is kept), en_side, dis_side (side_ok is kept),
+       switch_step2 (the interpreter step: WF, side_ok, both stacks and the array unchanged; a refused call
+       returns the state itself: enable_refused, disable_refused).
+   (1') edit_step_nohist: one edit call other than undo / redo keeps WF and side_ok whatever the two stacks hold.
+   (3a) session_toggle_nohist_reachable_WF / session_toggle_sandwich_reachable_WF (UNCONDITIONAL):
+       every state reached along   switches ++ (edits with undo / redo) ++ (any mix of switches and edits
+       in which nothing is undone or redone)   is well formed.  Non-vacuity: session_toggle_sandwich_nonvacuous.
+
+   REFUTED (section 4): session_toggle_refuted_noseg.  The mixed theorem with undo / redo after a switch is
+   FALSE under the hypotheses WF, cfg_keys, reg_ok, rp_disjoint, rp_decl, empty stacks, switch_ok,
+   preconditions along the run, when seg = None but the configuration declares regionprops keys
+   (rp_all contains the position key; the record feats does not tie rp_all to the presence of an array).
+   Witness: exs without its array; ODelEdge 1 3; ODelNode 2; OAddNode 5 {time 1, track 1, pos} None;
+   ODisable [KPos]; OUndo; ORedo.  The undo deletes node 5 and saves its REGISTERED attributes (the position
+   no longer is one); the redo removes 1 -> 4, then AddNode(5) raises ValueError (no position, no pixels)
+   in the middle of the group: codes [0;0;0;0;1;12], nodes 1 and 4 are two heads with track id 1, W_trk fails.
+   In the implementation there is no RegionpropsAnnotator without a segmentation (disable_features(["pos"])
+   is a KeyError there), so this is an artefact of the model's hypotheses, not a defect to replay; a faithful
+   extra hypothesis would be   seg st0 = None -> rp_all (ft st0) = [] /\ iou_avail (ft st0) = false.
+
+   CONDITIONAL (section 5), i.e. what is MISSING for the full mixed theorem:
+   session_toggle_reachable_WF_conditional proves the full statement (any interleaving, undo / redo after
+   switches) from the hypothesis transport_along: at every switch call o of the run, in state st with
+   reference timeline t (transport_ok o st t),
+     (a) every recorded action a IN THE TWO STACKS with TrW a x y between timeline states x, y stays a
+         consistent transition between the switched states: Consistent SI a (sw o x) (sw o y);
+     (b) obs_eq st e -> obs_eq (sw o st) (sw o e) for the timeline states e.
+   Everything else of the induction is proved (switch_session: the history invariant HInv of
+   Proofs/EditSessions.v is mapped state by state through the switch; step2_session; run2_session).
+   Why (a) is not proved: the invariant of session_all_reachable_WF is HInv over eqvI SI / TrW, and
+   obs_eq contains ft s' = ft s and quantifies the registered keys of ft, so every timeline state has to be
+   switched too, and Consistent SI a x y is an abstract statement about inv_action on ALL SI states that look
+   like y.  Transporting it needs a simulation of inv_basic between two feature tables (rp_update /
+   iou_update_edges / saved_attrs read rp_act, iou_act, reg_node, reg_edge), including the returned
+   actions, whose saved attributes differ; with seg = None it is false (the refutation above), with an
+   array the executable model gave no counterexample on the sessions tried (undo / redo across disable /
+   enable of KPos, KArea, KIou after strokes, node and edge deletions).  transport_ok_fresh: (a), (b) hold
+   trivially while the history is empty. *)
 From Coq Require Import ZArith List Bool Lia.
 From FT Require Import Base.Dict Model.Edit Model.EditExec Model.Toggle Model.ToggleExec Proofs.DictLemmas Proofs.EditInv
   Proofs.EditBook Proofs.EditFresh Proofs.EditInverse Proofs.EditSessions Proofs.EditSessionsFull Proofs.EditSessionsAll
@@ -290,3 +340,480 @@ Proof.
   apply dis_fresh, W.
 Qed.
 End DisableStep.
+
+(* ---- the two calls as interpreter steps ---- *)
+Definition is_switch (o : op2) : bool := match o with OEdit _ => false | _ => true end.
+
+Theorem switch_step2 st o : is_switch o = true -> switch_ok o -> WF st -> side_ok st ->
+  let s := fst (step2 st o) in
+  WF s /\ side_ok s /\ undo_stack s = undo_stack st /\ redo_stack s = redo_stack st /\ seg s = seg st.
+Proof.
+  intros Hs Hok W S. pose proof S as (C & _). destruct o as [o|ks rc ctrk clin|ks]; [discriminate Hs| |]; cbn [step2 switch_ok] in *.
+  - destruct Hok as (-> & HT & HL).
+    destruct (enable_features st ks true ctrk clin) as [[] s|e s] eqn:E; cbn [fin fst].
+    + destruct (en_stacks st ks ctrk clin s E) as [Eu Er].
+      split; [exact (enable_step_WF st ks ctrk clin s C E HT HL W)|]. split; [exact (en_side st ks ctrk clin s C E S)|].
+      split; [exact Eu|]. split; [exact Er|exact (en_seg st ks ctrk clin s E)].
+    + rewrite (enable_refused _ _ _ _ _ _ _ E). auto.
+  - destruct Hok as (HT & HL).
+    destruct (disable_features st ks) as [[] s|e s] eqn:E; cbn [fin fst].
+    + destruct (dis_stacks st ks s E) as [Eu Er].
+      split; [exact (disable_step_WF st ks s C E HT HL W)|]. split; [exact (dis_side st ks s C E S)|].
+      split; [exact Eu|]. split; [exact Er|exact (dis_seg st ks s E)].
+    + rewrite (disable_refused _ _ _ _ E). auto.
+Qed.
+
+(* an edit call that is neither undo nor redo: one-step preservation, no history needed *)
+Lemma side_ok_ft s s' : ft s' = ft s -> side_ok s -> side_ok s'.
+Proof.
+  intros E (C & R & P & D). split; [exact (cfg_keys_ft s s' E C)|]. split; [exact (EditWFPaintRollback.reg_ok_ft s s' E R)|].
+  split; [exact (EditWFNode.rp_disjoint_ft s s' E P)|]. unfold rp_decl. now rewrite E.
+Qed.
+
+Definition no_hist (o : op2) : Prop := o <> OEdit OUndo /\ o <> OEdit ORedo.
+
+Theorem edit_step_nohist st o : o <> OUndo -> o <> ORedo -> WF st -> side_ok st -> EditWFNode.op_pre st o ->
+  WF (fst (step st o)) /\ side_ok (fst (step st o)).
+Proof.
+  intros Hu Hr W S P. split; [|exact (side_ok_ft st _ (step_ft st o) S)]. destruct S as (C & R & D & Dl).
+  destruct o; try (now elim Hu); try (now elim Hr).
+  all: try (match goal with |- WF (fst (step _ ?o)) => exact (proj1 (EditWFPaintRollback.step_paint_WF_all st o eq_refl P W D R)) end).
+  apply EditWFEdge.step_edge_attr_WF; [reflexivity| |exact W]. cbn [EditWFEdge.op_guard]. now apply EditWFEdge.rp_guard_incl.
+Qed.
+
+(* ================================================================== *)
+(* 2. mixed sessions                                                    *)
+(* ================================================================== *)
+Definition op2_pre (st : state) (o : op2) : Prop := match o with OEdit e => op_pre_all st e | _ => True end.
+Definition pre_along2 (st : state) (ops : list op2) : Prop :=
+  forall pre o post, ops = pre ++ o :: post -> op2_pre (run2 st pre) o.
+
+Lemma pre_along2_tail st o r : pre_along2 st (o :: r) -> pre_along2 (fst (step2 st o)) r.
+Proof.
+  intros H pre o' post E. specialize (H (o :: pre) o' post). cbn [app] in H. rewrite run2_cons in H. apply H. now rewrite E.
+Qed.
+
+(* one call of a session without undo / redo *)
+Theorem step2_nohist st o : switch_ok o -> no_hist o -> op2_pre st o -> WF st -> side_ok st ->
+  WF (fst (step2 st o)) /\ side_ok (fst (step2 st o)).
+Proof.
+  intros Hok [N1 N2] P W S. destruct o as [e|ks rc ctrk clin|ks].
+  - cbn [step2]. destruct P as [P _]. apply edit_step_nohist; auto; intros ->; [now apply N1|now apply N2].
+  - destruct (switch_step2 st (OEnable ks rc ctrk clin) eq_refl Hok W S) as (A & B & _). auto.
+  - destruct (switch_step2 st (ODisable ks) eq_refl Hok W S) as (A & B & _). auto.
+Qed.
+
+Theorem run2_nohist : forall pre post st, WF st -> side_ok st -> Forall switch_ok (pre ++ post) -> Forall no_hist (pre ++ post) ->
+  pre_along2 st (pre ++ post) -> WF (run2 st pre) /\ side_ok (run2 st pre).
+Proof.
+  induction pre as [|o r IH]; intros post st W S Hok Hno Hpre; [auto|].
+  cbn [app] in *. inversion Hok as [|? ? Ho Hr]; subst. inversion Hno as [|? ? No Nr]; subst.
+  destruct (step2_nohist st o Ho No (Hpre [] o (r ++ post) eq_refl) W S) as [W1 S1].
+  rewrite run2_cons. apply (IH post); auto. now apply pre_along2_tail.
+Qed.
+
+Lemma run_ft ops : forall st, ft (run st ops) = ft st.
+Proof. induction ops as [|o r IH]; intros st; [reflexivity|]. change (run st (o :: r)) with (run (fst (step st o)) r). now rewrite IH, step_ft. Qed.
+
+(* UNCONDITIONAL: an edit session with undo / redo (Proofs/EditSessionsAll.v), followed by any mix of
+   switches and edits in which nothing is undone or redone *)
+Section SessionNoHist.
+  Variables (st0 : state) (edits : list op) (rest : list op2).
+  Hypothesis W0 : WF st0.
+  Hypothesis S0 : side_ok st0.
+  Hypothesis Hu : undo_stack st0 = [].
+  Hypothesis Hr : redo_stack st0 = [].
+  Hypothesis Hok : Forall switch_ok rest.
+  Hypothesis Hno : Forall no_hist rest.
+  Hypothesis Hpre : pre_along2 st0 (map OEdit edits ++ rest).
+
+  Lemma snh_edits : pre_along_all st0 edits.
+  Proof.
+    intros p o q E. specialize (Hpre (map OEdit p) (OEdit o) (map OEdit q ++ rest)).
+    rewrite run2_edits in Hpre. apply Hpre. rewrite E, map_app. cbn [map]. now rewrite <- app_assoc.
+  Qed.
+
+  Theorem session_toggle_nohist_reachable_WF pre post : map OEdit edits ++ rest = pre ++ post -> WF (run2 st0 pre).
+  Proof.
+    intros E. destruct S0 as (C0 & R0 & P0 & D0). destruct (app_eq_app _ _ _ _ E) as [m [[E1 E2]|[E1 E2]]].
+    - destruct (map_eq_app _ _ _ _ E1) as (p1 & p2 & Ee & <- & _). rewrite run2_edits.
+      exact (session_all_reachable_WF st0 edits W0 R0 P0 D0 Hu Hr snh_edits p1 p2 Ee).
+    - subst pre. rewrite run2_app, run2_edits.
+      assert (W1 : WF (run st0 edits)) by exact (session_all_WF st0 edits W0 R0 P0 D0 Hu Hr snh_edits).
+      assert (S1 : side_ok (run st0 edits)) by (apply (side_ok_ft st0); [apply run_ft|exact S0]).
+      rewrite E2 in Hok, Hno. apply (run2_nohist m post (run st0 edits) W1 S1 Hok Hno).
+      intros p o q Eq. specialize (Hpre (map OEdit edits ++ p) o q). rewrite run2_app, run2_edits in Hpre. apply Hpre.
+      now rewrite E2, Eq, <- app_assoc.
+  Qed.
+End SessionNoHist.
+
+(* ================================================================== *)
+(* 3. a decidable sufficient condition for the preconditions along a mixed run *)
+(* ================================================================== *)
+Definition present (o : option value) : bool := match o with Some VNone => false | Some _ => true | None => false end.
+Lemma present_spec o : present o = true -> exists v, o = Some v /\ v <> VNone.
+Proof. destruct o as [[]|]; cbn; try discriminate; intros _; eexists; split; try reflexivity; discriminate. Qed.
+
+Definition op_pre2c (st : state) (o : op) : bool :=
+  match o with
+  | ODelNode n => match seg st with Some _ => true | None =>
+                    forallb (fun k => memz k (reg_node (ft st)) && present (attr st n k)) (pos_keys (ft st)) end
+  | OAddNode n a px _ => match seg st with Some _ => true | None =>
+                    forallb (fun k => memz k (reg_node (ft st)) && present (lookup k a)) (pos_keys (ft st)) end
+  | _ => true
+  end.
+Lemma op_pre2c_spec st o : op_pre2c st o = true -> op_pre2 st o.
+Proof.
+  destruct o; cbn [op_pre2c op_pre2]; try (intros _; exact Logic.I).
+  - destruct (seg st); [intros _ Hc; discriminate Hc|]. intros H _ k Hk. rewrite forallb_forall in H. specialize (H k Hk).
+    apply andb_true_iff in H. destruct H as [H1 H2]. split; [now apply memz_In|now apply present_spec].
+  - unfold pos_ok. destruct (seg st); [intros _ Hc; discriminate Hc|]. intros H _ k Hk. rewrite forallb_forall in H. specialize (H k Hk).
+    apply andb_true_iff in H. destruct H as [H1 H2]. split; [now apply memz_In|now apply present_spec].
+Qed.
+
+Fixpoint pre_alongb3 (st : state) (ops : list op2) : bool :=
+  match ops with
+  | [] => true
+  | o :: r => (match o with OEdit e => EditWFNode.op_preb st e && op_pre2c st e | _ => true end) && pre_alongb3 (fst (step2 st o)) r
+  end.
+Lemma pre_alongb3_spec : forall ops st, pre_alongb3 st ops = true -> pre_along2 st ops.
+Proof.
+  induction ops as [|o r IH]; intros st H pre o' post E; [destruct pre; discriminate E|].
+  cbn [pre_alongb3] in H. apply andb_true_iff in H. destruct H as [H Hr].
+  destruct pre as [|x pre]; cbn [app] in E; injection E as <- E.
+  - unfold run2. cbn [fold_left]. destruct o as [e| |]; cbn [op2_pre]; try exact Logic.I.
+    apply andb_true_iff in H. destruct H as [H1 H2]. split; [now apply EditWFNode.op_preb_spec|now apply op_pre2c_spec].
+  - rewrite run2_cons. exact (IH _ Hr pre o' post E).
+Qed.
+
+Fixpoint codes2 (st : state) (ops : list op2) : list Z :=
+  match ops with [] => [] | o :: r => fst (snd (step2 st o)) :: codes2 (fst (step2 st o)) r end.
+
+(* ================================================================== *)
+(* 4. REFUTED: the mixed session theorem with undo / redo, when there is no segmentation but the
+      configuration still declares regionprops keys (here the position key)                     *)
+(* ================================================================== *)
+(* dropping the label array keeps WF: W_seg and W_fresh become trivial *)
+Lemma WF_drop_seg st : WF st -> WF (upd_seg st None).
+Proof.
+  intros [Cf [D1 D2 D3 D4 D5 D6 D7 D8 D9] [F1 F2 F3] [T1 T2] [L1 L2] Bk _ _]. constructor.
+  - exact Cf.
+  - constructor; assumption.
+  - constructor; assumption.
+  - constructor; assumption.
+  - constructor; assumption.
+  - exact Bk.
+  - exact Logic.I.
+  - exact Logic.I.
+Qed.
+
+Definition rf_s0 : state := upd_seg EditWFEdge.exs None.
+Definition rf_a5 : attrs := [(KTime, VZ 1); (KTrack, VZ 1); (KPos, VTok 99)].
+(* cut 1 -> 3; delete node 2 (1 -> 4 is spliced); add node 5 between 1 and 4 with a position;
+   switch the position feature off; undo; redo *)
+Definition rf_ops : list op2 :=
+  [OEdit (ODelEdge 1 3); OEdit (ODelNode 2); OEdit (OAddNode 5 rf_a5 None false); ODisable [KPos]; OEdit OUndo; OEdit ORedo].
+
+Lemma no_edges_has_edge s : (forall u d, In (u, d) (succs (g s)) -> d = []) -> forall p n, has_edge s p n = false.
+Proof.
+  intros H p n. unfold has_edge, adj, getd. destruct (lookup p (succs (g s))) as [d|] eqn:E; [|reflexivity].
+  apply lookup_In in E. now rewrite (H p d E).
+Qed.
+
+Example session_toggle_refuted_noseg :
+  exists st0 ops,
+    WF st0 /\ side_ok st0 (* cfg_keys, reg_ok, rp_disjoint, rp_decl *) /\ undo_stack st0 = [] /\ redo_stack st0 = [] /\
+    seg st0 = None /\ Forall switch_ok ops /\ pre_along2 st0 ops /\
+    codes2 st0 ops = [0; 0; 0; 0; 1; 12] /\ ~ WF (run2 st0 ops).
+Proof.
+  exists rf_s0, rf_ops.
+  split; [apply WF_drop_seg, EditWFEdge.exs_WF|].
+  split.
+  { split; [|split; [exact exs_reg_ok|split; [exact EditInverseNode.exs_rp_disjoint|exact exs_rp_decl]]].
+    constructor.
+    - cbn. repeat constructor; cbn; intuition discriminate.
+    - intros k Hk. exact Hk.
+    - intros k Hk. cbn in Hk |- *. intuition.
+    - intros _. reflexivity. }
+  split; [reflexivity|]. split; [reflexivity|]. split; [reflexivity|].
+  split; [repeat constructor; cbn; intuition discriminate|].
+  split; [apply pre_alongb3_spec; vm_compute; reflexivity|].
+  split; [vm_compute; reflexivity|].
+  intros W.
+  assert (Es : succs (g (run2 rf_s0 rf_ops)) = [(1, []); (3, []); (4, [])]) by (vm_compute; reflexivity).
+  assert (En : node_ids (run2 rf_s0 rf_ops) = [1; 3; 4]) by (vm_compute; reflexivity).
+  assert (Et : trk (run2 rf_s0 rf_ops) 1 = trk (run2 rf_s0 rf_ops) 4) by (vm_compute; reflexivity).
+  assert (Hne : forall p n, has_edge (run2 rf_s0 rf_ops) p n = false).
+  { apply no_edges_has_edge. rewrite Es. intros u d [H|[H|[H|[]]]]; now injection H as _ <-. }
+  assert (Hh : forall n, In n [1; 3; 4] -> head (run2 rf_s0 rf_ops) n).
+  { intros n Hn. split; [unfold is_node; now rewrite En|]. intros p Hp. unfold edge in Hp. rewrite Hne in Hp. discriminate Hp. }
+  pose proof (wt2 _ (w_trk _ W) 1 4 (Hh 1 (or_introl eq_refl)) (Hh 4 (or_intror (or_intror (or_introl eq_refl)))) Et) as Habs.
+  discriminate Habs.
+Qed.
+
+(* ================================================================== *)
+(* 5. CONDITIONAL: mixed sessions with undo / redo, reduced to the transport of the recorded
+      transitions across a switch (what is NOT proved here, see the header)                  *)
+(* ================================================================== *)
+Definition sw (o : op2) (x : state) : state := fst (step2 x o).
+Definition tmap (o : op2) (t : A.tline state) : A.tline state := {| A.tl := map (sw o) (A.tl _ t); A.c := A.c _ t |}.
+
+(* the missing piece, stated for one switch call o made in state st with reference timeline t:
+   (a) every recorded transition between timeline states stays undoable / redoable for ever between the
+       switched states (the inverses recompute what is active when they run);
+   (b) switching respects observational equality between the current state and its timeline state *)
+Definition transport_ok (o : op2) (st : state) (t : A.tline state) : Prop :=
+  (forall a x y, In a (undo_stack st ++ redo_stack st) -> In x (A.tl _ t) -> In y (A.tl _ t) -> TrW a x y ->
+                 Consistent SI a (sw o x) (sw o y)) /\
+  (forall e, In e (A.tl _ t) -> obs_eq st e -> obs_eq (sw o st) (sw o e)).
+
+Definition SInv2 (st : state) (t : A.tline state) : Prop := SInv st t /\ side_ok st /\ Forall side_ok (A.tl _ t).
+
+Lemma side_SI st : WF st -> side_ok st -> SI st.
+Proof. intros W (_ & R & P & _). now apply WF_SI. Qed.
+
+Section SwitchInv.
+Variables (o : op2) (st : state) (t : A.tline state).
+Hypothesis Hs : is_switch o = true.
+Hypothesis Hok : switch_ok o.
+Hypothesis I2 : SInv2 st t.
+Hypothesis TO : transport_ok o st t.
+
+Let P (x : state) : Prop := In x (A.tl _ t).
+Let Q (a : action) : Prop := In a (undo_stack st ++ redo_stack st).
+
+Lemma swi_state x : P x -> WF x /\ side_ok x /\ WF (sw o x) /\ side_ok (sw o x) /\ SI (sw o x).
+Proof.
+  intros Hx. destruct I2 as ((_ & _ & Hall) & _ & Hside). rewrite Forall_forall in Hall, Hside.
+  pose proof (Hall x Hx) as W. pose proof (Hside x Hx) as S.
+  destruct (switch_step2 x o Hs Hok W S) as (W' & S' & _). unfold sw.
+  split; [exact W|]. split; [exact S|]. split; [exact W'|]. split; [exact S'|]. now apply side_SI.
+Qed.
+
+Lemma swi_Tr a x y : Q a -> P x -> P y -> TrW a x y -> TrW a (sw o x) (sw o y).
+Proof.
+  intros Ha Hx Hy T. destruct (swi_state x Hx) as (_ & _ & Wx & _ & Sx). destruct (swi_state y Hy) as (_ & _ & Wy & _ & Sy).
+  split; [exact Wx|]. split; [exact Wy|]. split; [exact Sx|]. split; [exact Sy|]. exact (proj1 TO a x y Ha Hx Hy T).
+Qed.
+
+Lemma swi_chain : forall e us ts e', A.Chain state action TrW e us ts e' -> Forall Q us -> P e -> Forall P ts ->
+  A.Chain state action TrW (sw o e) us (map (sw o) ts) (sw o e') /\ P e'.
+Proof.
+  intros e us ts e' Ch. induction Ch as [e|e a x us ts e' T Ch IH]; intros Qus Pe Pts; cbn [map].
+  - split; [constructor|exact Pe].
+  - inversion Pts as [|? ? Px Pr]; subst. inversion Qus as [|? ? Qa Qr]; subst. destruct (IH Qr Px Pr) as [IH1 IH2]. split; [|exact IH2].
+    constructor; [now apply swi_Tr|exact IH1].
+Qed.
+
+Lemma swi_chain2 : forall e us rs ts, A.Chain2 state action TrW e us rs ts -> Forall Q us -> Forall Q rs -> P e -> Forall P ts ->
+  A.Chain2 state action TrW (sw o e) us rs (map (sw o) ts).
+Proof.
+  intros e us rs ts Ch. induction Ch as [e|e u r x us rs ts T1 T2 Ch IH]; intros Qus Qrs Pe Pts; cbn [map].
+  - constructor.
+  - inversion Pts as [|? ? Px Pr]; subst. inversion Qus as [|? ? Qu Qur]; subst. inversion Qrs as [|? ? Qr Qrr]; subst.
+    constructor; [now apply swi_Tr|now apply swi_Tr|now apply IH].
+Qed.
+
+Theorem switch_session : SInv2 (sw o st) (tmap o t).
+Proof.
+  pose proof I2 as ((Ss & Hinv & Hall) & S & Hside).
+  pose proof (SInv_WF st t (proj1 I2)) as W.
+  destruct (switch_step2 st o Hs Hok W S) as (W' & S' & Eu & Er & _). fold (sw o st) in W', S', Eu, Er.
+  assert (Ss' : SI (sw o st)) by now apply side_SI.
+  destruct Hinv as (s0 & Ud & Uu & tld & tlu & e & HU & Ht & Hc & C1 & C2 & E). cbn [hof A.U A.R A.cur] in *.
+  assert (Pall : forall x, In x (s0 :: tld ++ tlu) -> P x) by (intros x Hx; unfold P; now rewrite Ht).
+  assert (P0 : P s0) by (apply Pall; now left).
+  assert (Pd : Forall P tld) by (apply Forall_forall; intros x Hx; apply Pall; right; apply in_or_app; now left).
+  assert (Pu : Forall P tlu) by (apply Forall_forall; intros x Hx; apply Pall; right; apply in_or_app; now right).
+  assert (Qd : Forall Q Ud) by (apply Forall_forall; intros a Ha; unfold Q; rewrite HU, !in_app_iff; auto).
+  assert (Qu : Forall Q Uu) by (apply Forall_forall; intros a Ha; unfold Q; rewrite HU, !in_app_iff; auto).
+  assert (Qr : Forall Q (rev (redo_stack st))) by (apply Forall_forall; intros a Ha; unfold Q; apply in_rev in Ha; rewrite in_app_iff; auto).
+  destruct (swi_chain _ _ _ _ C1 Qd P0 Pd) as [C1' Pe]. pose proof (swi_chain2 _ _ _ _ C2 Qu Qr Pe Pu) as C2'.
+  split; [|split; [exact S'|]].
+  - split; [exact Ss'|]. split.
+    + exists (sw o s0), Ud, Uu, (map (sw o) tld), (map (sw o) tlu), (sw o e). cbn [hof A.U A.R A.cur tmap A.tl A.c].
+      rewrite Eu, Er, Ht. cbn [map]. rewrite map_app, map_length.
+      split; [exact HU|]. split; [reflexivity|]. split; [exact Hc|]. split; [exact C1'|]. split; [exact C2'|].
+      destruct (swi_state e Pe) as (_ & _ & _ & _ & Se). split; [exact (proj2 TO e Pe (proj1 E))|tauto].
+    + cbn [tmap A.tl]. apply Forall_forall. intros x Hx. apply in_map_iff in Hx. destruct Hx as (x0 & <- & Hx0).
+      now destruct (swi_state x0 Hx0) as (_ & _ & Wx & _).
+  - cbn [tmap A.tl]. apply Forall_forall. intros x Hx. apply in_map_iff in Hx. destruct Hx as (x0 & <- & Hx0).
+    now destruct (swi_state x0 Hx0) as (_ & _ & _ & Sx & _).
+Qed.
+End SwitchInv.
+
+(* the reference timeline of a mixed run: a switch maps every state of the timeline *)
+Definition tl_step2 (st : state) (t : A.tline state) (o : op2) : A.tline state :=
+  match o with OEdit e => tl_step_full st t e | _ => tmap o t end.
+Fixpoint tl_run2 (st : state) (t : A.tline state) (ops : list op2) : A.tline state :=
+  match ops with [] => t | o :: r => tl_run2 (fst (step2 st o)) (tl_step2 st t o) r end.
+
+Lemma tl_step_full_In st t o x : In x (A.tl _ (tl_step_full st t o)) -> In x (A.tl _ t) \/ x = fst (step st o).
+Proof.
+  assert (Hed : forall s', In x (A.tl _ (A.t_edit _ t s')) -> In x (A.tl _ t) \/ x = s').
+  { intros s'. unfold A.t_edit. cbn [A.tl]. rewrite !in_app_iff. intros [H|[H|[<-|[]]]]; auto.
+    left. apply in_rev, In_removelast, In_skipn in H. exact H. }
+  destruct o; unfold tl_step_full; try (destruct (_ && _); [apply Hed|auto]); auto.
+  - unfold A.t_undo. destruct (A.c _ t); cbn; auto.
+  - unfold A.t_redo. destruct (_ <? _)%nat; cbn; auto.
+Qed.
+
+Theorem step2_session st t o : SInv2 st t -> switch_ok o -> op2_pre st o ->
+  (is_switch o = true -> transport_ok o st t) -> SInv2 (fst (step2 st o)) (tl_step2 st t o).
+Proof.
+  intros I2 Hok Hpre HT. destruct (is_switch o) eqn:Hs.
+  - assert (E : tl_step2 st t o = tmap o t) by (destruct o; [discriminate Hs|reflexivity|reflexivity]). rewrite E.
+    exact (switch_session o st t Hs Hok I2 (HT eq_refl)).
+  - destruct o as [e| |]; try discriminate Hs. cbn [step2 tl_step2 op2_pre] in *.
+    destruct I2 as (I & S & Hside). pose proof S as (_ & _ & _ & D).
+    destruct (step_session_all st t e I D Hpre) as (I1 & _).
+    pose proof (side_ok_ft st _ (step_ft st e) S) as S1.
+    split; [exact I1|]. split; [exact S1|]. apply Forall_forall. intros x Hx. apply tl_step_full_In in Hx.
+    destruct Hx as [Hx| ->]; [|exact S1]. rewrite Forall_forall in Hside. now apply Hside.
+Qed.
+
+Definition transport_along (st : state) (t : A.tline state) (ops : list op2) : Prop :=
+  forall pre o post, ops = pre ++ o :: post -> is_switch o = true -> transport_ok o (run2 st pre) (tl_run2 st t pre).
+
+Theorem run2_session : forall ops st t, SInv2 st t -> Forall switch_ok ops -> pre_along2 st ops -> transport_along st t ops ->
+  SInv2 (run2 st ops) (tl_run2 st t ops).
+Proof.
+  induction ops as [|o r IH]; intros st t I2 Hok Hpre HT; [exact I2|].
+  inversion Hok as [|? ? Ho Hr]; subst. rewrite run2_cons. cbn [tl_run2]. apply IH.
+  - apply step2_session; [exact I2|exact Ho|exact (Hpre [] o r eq_refl)|exact (HT [] o r eq_refl)].
+  - exact Hr.
+  - now apply pre_along2_tail.
+  - intros pre o' post E Hs. specialize (HT (o :: pre) o' post). cbn [app] in HT. rewrite run2_cons in HT. cbn [tl_run2] in HT.
+    apply HT; [now rewrite E|exact Hs].
+Qed.
+
+Section SessionToggleConditional.
+  Variables (st0 : state) (ops : list op2).
+  Hypothesis W0 : WF st0.
+  Hypothesis S0 : side_ok st0.
+  Hypothesis Hu : undo_stack st0 = [].
+  Hypothesis Hr : redo_stack st0 = [].
+  Hypothesis Hok : Forall switch_ok ops.
+  Hypothesis Hpre : pre_along2 st0 ops.
+  Let t0 : A.tline state := {| A.tl := [st0]; A.c := 0 |}.
+  (* NOT PROVED: see transport_ok *)
+  Hypothesis Htr : transport_along st0 t0 ops.
+
+  Theorem session_toggle_reachable_WF_conditional pre post : ops = pre ++ post -> WF (run2 st0 pre).
+  Proof.
+    intros E. destruct S0 as (C0 & R0 & P0 & D0).
+    assert (I0 : SInv2 st0 t0).
+    { split; [now apply SInv_init|]. split; [exact S0|]. cbn. constructor; [exact S0|constructor]. }
+    assert (I : SInv2 (run2 st0 pre) (tl_run2 st0 t0 pre)).
+    { apply run2_session; [exact I0| | |].
+      - rewrite E in Hok. apply Forall_app in Hok. tauto.
+      - intros p o q Eq. apply (Hpre p o (q ++ post)). rewrite E, Eq, <- app_assoc. reflexivity.
+      - intros p o q Eq Hs. apply (Htr p o (q ++ post)); [|exact Hs]. rewrite E, Eq, <- app_assoc. reflexivity. }
+    exact (SInv_WF _ _ (proj1 I)).
+  Qed.
+End SessionToggleConditional.
+
+(* ================================================================== *)
+(* 6. UNCONDITIONAL consequences                                        *)
+(* ================================================================== *)
+(* a switch never touches the two stacks *)
+Lemma switch_stacks o st : is_switch o = true -> undo_stack (sw o st) = undo_stack st /\ redo_stack (sw o st) = redo_stack st.
+Proof.
+  intros Hs. destruct o as [e|ks rc ctrk clin|ks]; [discriminate Hs| |]; unfold sw; cbn [step2].
+  - destruct (enable_features st ks rc ctrk clin) as [[] s|e s] eqn:E; cbn [fin fst].
+    + destruct rc; [exact (en_stacks st ks ctrk clin s E)|].
+      revert E. unfold enable_features. destruct (negb _); [discriminate|]. intros H. injection H as <-. auto.
+    + now rewrite (enable_refused _ _ _ _ _ _ _ E).
+  - destruct (disable_features st ks) as [[] s|e s] eqn:E; cbn [fin fst].
+    + exact (dis_stacks st ks s E).
+    + now rewrite (disable_refused _ _ _ _ E).
+Qed.
+
+Lemma run2_switch_stacks : forall sws st, Forall (fun o => is_switch o = true) sws ->
+  undo_stack (run2 st sws) = undo_stack st /\ redo_stack (run2 st sws) = redo_stack st.
+Proof.
+  induction sws as [|o r IH]; intros st H; [auto|]. inversion H as [|? ? Ho Hr]; subst. rewrite run2_cons.
+  destruct (IH (fst (step2 st o)) Hr) as [A B]. destruct (switch_stacks o st Ho) as [A' B']. unfold sw in A', B'. split; congruence.
+Qed.
+
+(* with an empty history every switch meets the transport condition: the conditional theorem is not vacuous *)
+Lemma transport_ok_fresh o st t : undo_stack st = [] -> redo_stack st = [] -> A.tl _ t = [st] -> transport_ok o st t.
+Proof.
+  intros Eu Er Et. split.
+  - intros a x y Ha. rewrite Eu, Er in Ha. destruct Ha.
+  - intros e He _. rewrite Et in He. destruct He as [<-|[]]. apply obs_eq_refl.
+Qed.
+
+(* switches, then an edit session with undo / redo, then any mix without undo / redo *)
+Section SessionSandwich.
+  Variables (st0 : state) (sws : list op2) (edits : list op) (rest : list op2).
+  Hypothesis W0 : WF st0.
+  Hypothesis S0 : side_ok st0.
+  Hypothesis Hu : undo_stack st0 = [].
+  Hypothesis Hr : redo_stack st0 = [].
+  Hypothesis Hsw : Forall (fun o => is_switch o = true) sws.
+  Hypothesis Hok : Forall switch_ok (sws ++ rest).
+  Hypothesis Hno : Forall no_hist rest.
+  Hypothesis Hpre : pre_along2 st0 (sws ++ map OEdit edits ++ rest).
+
+  Theorem session_toggle_sandwich_reachable_WF pre post : sws ++ map OEdit edits ++ rest = pre ++ post -> WF (run2 st0 pre).
+  Proof.
+    intros E. apply Forall_app in Hok. destruct Hok as [Hok1 Hok2].
+    assert (Hno1 : Forall no_hist sws).
+    { apply Forall_forall. intros o Ho. rewrite Forall_forall in Hsw. specialize (Hsw o Ho). split; intros ->; discriminate Hsw. }
+    assert (Hp1 : forall p q, sws = p ++ q -> WF (run2 st0 p) /\ side_ok (run2 st0 p)).
+    { intros p q Es. apply (run2_nohist p q st0 W0 S0); [now rewrite <- Es|now rewrite <- Es|].
+      intros a o b Eo. rewrite <- Es in Eo. apply (Hpre a o (b ++ map OEdit edits ++ rest)). now rewrite Eo, <- app_assoc. }
+    destruct (app_eq_app _ _ _ _ E) as [m [[E1 E2]|[E1 E2]]].
+    - exact (proj1 (Hp1 pre m E1)).
+    - subst pre. rewrite run2_app. destruct (Hp1 sws [] (eq_sym (app_nil_r sws))) as [W1 S1].
+      destruct (run2_switch_stacks sws st0 Hsw) as [Eu Er].
+      refine (session_toggle_nohist_reachable_WF (run2 st0 sws) edits rest W1 S1 _ _ Hok2 Hno _ m post E2); [congruence|congruence|].
+      intros a o b Eo. specialize (Hpre (sws ++ a) o b). rewrite run2_app in Hpre. apply Hpre. now rewrite Eo, <- app_assoc.
+  Qed.
+End SessionSandwich.
+
+(* non-vacuity on the example state with a segmentation (Proofs/EditWFEdge.v: KPos, KArea, IoU active) *)
+Lemma exs_side_ok : side_ok EditWFEdge.exs.
+Proof.
+  split; [|split; [exact exs_reg_ok|split; [exact EditInverseNode.exs_rp_disjoint|exact exs_rp_decl]]].
+  constructor.
+  - cbn. repeat constructor; cbn; intuition discriminate.
+  - intros k Hk. exact Hk.
+  - intros k Hk. cbn in Hk |- *. intuition.
+  - intros _. reflexivity.
+Qed.
+
+Definition ex_sws : list op2 := [ODisable [KArea]; OEnable [KEll; KIou] true [] []].
+Definition ex_edits : list op := [ODelEdge 2 4; OPaint 4 2 [3] 0 false; OUndo; OUndo; ORedo].
+Definition ex_rest : list op2 :=
+  [OEnable [KArea] true [] []; OEdit (ODelNode 3); ODisable [KIou; KPos]; OEdit (OAddEdge 2 4 false); OEnable [KIou; KPerim] true [] []].
+
+Example session_toggle_sandwich_nonvacuous :
+  WF (run2 EditWFEdge.exs (ex_sws ++ map OEdit ex_edits ++ ex_rest)) /\
+  codes2 EditWFEdge.exs (ex_sws ++ map OEdit ex_edits ++ ex_rest) = [0; 0; 0; 0; 1; 1; 1; 0; 0; 0; 0; 0].
+Proof.
+  split; [|vm_compute; reflexivity].
+  apply (session_toggle_sandwich_reachable_WF EditWFEdge.exs ex_sws ex_edits ex_rest EditWFEdge.exs_WF exs_side_ok eq_refl eq_refl)
+    with (post := []).
+  - repeat constructor.
+  - repeat constructor; cbn; intuition discriminate.
+  - repeat constructor; discriminate.
+  - apply pre_alongb3_spec. vm_compute. reflexivity.
+  - now rewrite app_nil_r.
+Qed.
+
+Print Assumptions enable_step_WF.
+Print Assumptions disable_step_WF.
+Print Assumptions switch_step2.
+Print Assumptions edit_step_nohist.
+Print Assumptions run2_nohist.
+Print Assumptions session_toggle_nohist_reachable_WF.
+Print Assumptions session_toggle_sandwich_reachable_WF.
+Print Assumptions session_toggle_sandwich_nonvacuous.
+Print Assumptions session_toggle_refuted_noseg.
+Print Assumptions switch_session.
+Print Assumptions step2_session.
+Print Assumptions run2_session.
+Print Assumptions transport_ok_fresh.
+Print Assumptions session_toggle_reachable_WF_conditional.
